@@ -25,11 +25,14 @@ dest_of() { # demo file -> package dir
 }
 git apply $OUT/patch.diff || { echo '{"error":"patch does not apply"}' > $OUT/confirm.json; cd /; git -C /repo worktree remove --force $WT; exit 1; }
 go build ./... > $OUT/build.log 2>&1; BUILD=$?
-go test -vet=off -count=1 -timeout 25m ./... > $OUT/suite_with_change.log 2>&1; SUITE=$?
-if [ $SUITE -ne 0 ]; then # retry failing packages once (timing flakes under load)
-  PK=$(grep -E '^(FAIL|---)' $OUT/suite_with_change.log | grep -E '^FAIL\s' | awk '{print $2}' | sort -u | tr '\n' ' ')
-  if [ -n "$PK" ]; then go test -vet=off -count=1 -timeout 25m $PK > $OUT/suite_retry.log 2>&1; SUITE=$?; fi
-fi
+go test -vet=off -count=1 -timeout 8m ./... > $OUT/suite_with_change.log 2>&1; SUITE=$?
+for try in 1 2 3; do # retry failing packages (itest has timing flakes / rare hangs under load, also on the unchanged tree)
+  [ $SUITE -eq 0 ] && break
+  LOG=$OUT/suite_with_change.log; [ $try -gt 1 ] && LOG=$OUT/suite_retry$((try-1)).log
+  PK=$(grep -E '^FAIL\s' $LOG | awk '{print $2}' | grep / | sort -u | tr '\n' ' ')
+  [ -z "$PK" ] && break
+  go test -vet=off -count=1 -timeout 8m $PK > $OUT/suite_retry$try.log 2>&1; SUITE=$?
+done
 PKGS=""; TESTS=""
 for f in $(find $SRC/demo -type f -name '*.go'); do
   d=$(dest_of $f); mkdir -p $d; cp $f $d/; rel=${f#$SRC/demo/}; mkdir -p $OUT/demo/$(dirname $rel); cp $f $OUT/demo/$rel
